@@ -182,7 +182,7 @@ func runBatcher(c BCase) bResult {
 	// bound on how long a record may wait for its batch to be handed over WHILE input keeps coming
 	bound := float64(c.MaxAgeMs + 2*c.TickMs + slackMs)
 	end := time.Now()
-	tail := time.Duration(c.MaxAgeMs+3*c.TickMs) * time.Millisecond // let the tail flush
+	tail := time.Duration(c.MaxAgeMs+3*c.TickMs+slackMs) * time.Millisecond // let the tail flush
 	if c.Kind == "memory-pressure" {
 		tail = time.Duration(3*c.TickMs) * time.Millisecond
 	}
@@ -222,7 +222,11 @@ func runBatcher(c BCase) bResult {
 			res.WorstMs = ms
 		}
 	}
-	if res.WorstMs > bound {
+	if res.Undelivered > 0 {
+		// the input has been silent for max age + 3 ticks (+ slack), the workers take whatever is offered:
+		// every batch became due (max age bounds the wait whatever the idle age is) and a tick came by
+		res.What = fmt.Sprintf("%s: %d of %d records had not been handed to a worker %d ms after the input went silent (tick %d ms, idle age %d ms, max age %d ms): an open batch is only looked at while input keeps arriving", c.Kind, res.Undelivered, res.Records, c.MaxAgeMs+3*c.TickMs+slackMs, c.TickMs, c.IdleAgeMs, c.MaxAgeMs)
+	} else if res.WorstMs > bound {
 		res.What = fmt.Sprintf("%s: a record waited %.0f ms for its batch to reach a worker while input kept arriving every %d ms (tick %d ms, idle age %d ms, max age %d ms, bound incl. %d ms slack: %.0f ms)", c.Kind, res.WorstMs, c.GapMs, c.TickMs, c.IdleAgeMs, c.MaxAgeMs, slackMs, bound)
 	}
 	return res
@@ -473,7 +477,7 @@ func init() {
 				rep.Samples = append(rep.Samples, map[string]interface{}{"case": c, "result": results[i]})
 			}
 			if whats[i] != "" {
-				rep.Violations = append(rep.Violations, core.Violation{Property: "C16", Signature: "record-waits-too-long-under-steady-input/" + c.Kind, What: whats[i], Case: c})
+				rep.Violations = append(rep.Violations, core.Violation{Property: "C16", Signature: map[bool]string{true: "record-not-handed-over-after-the-input-went-silent/", false: "record-waits-too-long-under-steady-input/"}[strings.Contains(whats[i], "after the input went silent")] + c.Kind, What: whats[i], Case: c})
 			}
 		}
 		return "(* BATCHERRT has no model-side cases: wall-clock test only *)\n"
